@@ -604,6 +604,9 @@ pub fn run(a: &Args, out: &mut impl Write) {
                     arenas.push(lib);
                 }
             }
+            // the arenas holding the fakes are code the library never allocated, like the others
+            arenas.push(near);
+            arenas.push(far);
             let mut ctx = Ctx { targets, named: vec![false; n], arenas };
             run_history(w, &mut ctx, &fakes, &ops);
         });
